@@ -610,6 +610,11 @@ def execute(case, stats):
                                 if not np.array_equal(np.asarray(yy.values, dtype=float), want) or real_unit_sig(yy.unit)[1] != yu.dims:
                                     V(step, op, "rhs-modified", {"y": np.asarray(yy.values).tolist()})
                                     break
+                        elif rk in ("qty", "nd") and not viol:
+                            # a plain ndarray or an array-valued Quantity is the caller's object just the same
+                            ymag = np.asarray(y.magnitude if rk == "qty" else y, dtype=float)
+                            if ymag.shape != yvals[0].shape or not np.array_equal(ymag, yvals[0]) or (rk == "qty" and y.units != osy.units(un)):
+                                V(step, op, "rhs-modified", {"y": ymag.tolist(), "want": yvals[0].tolist(), "kind": rk})
             else:
                 raise HarnessError(f"unknown op {k}")
         except HarnessError:
